@@ -17,7 +17,7 @@ func genMutSpec(r *rand.Rand, tcp bool) MutSpec {
 	if tcp {
 		kinds = append(kinds, "truncate", "swap", "replay", "splice")
 	} else {
-		kinds = append(kinds, "reflect", "truncate", "truncate")
+		kinds = append(kinds, "reflect", "truncate", "truncate", "latedup", "latedup")
 	}
 	m.Kind = kinds[r.Intn(len(kinds))]
 	if m.Kind == "truncate" && !tcp {
@@ -82,6 +82,9 @@ func c04Case(c *Ctx) *Result {
 		params["target"] = fmt.Sprintf("%s skip=%d", kind, skip)
 		x.SetupPlan = func(fp *FaultPlan) {
 			fp.Rules = []*Rule{{Dir: int(dir), Kind: kind, Seq: -1, SIDIdx: -1, Action: "mutate", Count: 1 + r.Intn(2), Mut: &spec, Skip: skip}}
+			if spec.Kind == "latedup" {
+				fp.Rules = []*Rule{{Dir: int(dir), Kind: kind, Seq: -1, SIDIdx: -1, Action: "latedup", Count: 1 + r.Intn(3), DelayMs: pick(r, 30, 200, 1000, 3000), Skip: skip}}
+			}
 			if spec.Kind == "reflect" {
 				fp.Rules = []*Rule{{Dir: int(dir), Kind: pick(r, "data", "data", "ack"), Seq: -1, SIDIdx: -1, Action: "reflect", Count: 3 + r.Intn(12), DelayMs: pick(r, 0, 0, 1),
 					ReflectAny: r.Intn(2) == 0, Skip: r.Intn(6)}}
